@@ -16,6 +16,13 @@ def build_anchor(force=False):
     if "dylib" in _anchor and not force:
         return _anchor["dylib"]
     adir = os.path.join(VERIF, "engines", "anchor")
+    if REPO != "/repo":
+        # a snapshot of the repository (vp run --with-repo): build a private copy of the anchor against it
+        adir = os.path.join(WORK, "anchor-alt")
+        os.makedirs(os.path.join(adir, "src"), exist_ok=True)
+        base = os.path.join(VERIF, "engines", "anchor")
+        write_if_changed(os.path.join(adir, "Cargo.toml"), open(os.path.join(base, "Cargo.toml")).read().replace('"/repo"', '"%s"' % REPO))
+        write_if_changed(os.path.join(adir, "src", "lib.rs"), open(os.path.join(base, "src", "lib.rs")).read())
     lock = os.path.join(adir, "Cargo.lock")
     write_if_changed(lock, repo_lock())
     tdir = os.path.join(TARGET, "anchor")
